@@ -104,5 +104,54 @@ fn main() {
         total += out.len() as u64;
         item += 1;
     }
+    // ---- defragmenter under the same configuration
+    // (a) every corpus item split in two handshake records, then fed again whole
+    let mut off = 0usize;
+    let mut k = 0u64;
+    let mut p = TlsRecordsParser::default();
+    while off + 4 <= data.len() && k < 2000 {
+        let l = u32::from_le_bytes([data[off], data[off + 1], data[off + 2], data[off + 3]]) as usize;
+        off += 4;
+        let i = &data[off..off + l];
+        off += l;
+        let mid = i.len() / 2;
+        let mut h: u64 = 0xcbf2_9ce4_8422_2325;
+        for part in [&i[..mid], &i[mid..], i] {
+            let ty = if k % 5 == 4 { 0x18 } else { 0x16 };
+            let rec = TlsRawRecord { hdr: TlsRecordHeader { record_type: TlsRecordType(ty), version: TlsVersion(0x0303), len: part.len().min(65535) as u16 }, data: part };
+            let r = p.parse_record(rec);
+            fnv(&mut h, format!("{:?}", r).as_bytes());
+            drop(r);
+            fnv(&mut h, &[p.defrag_in_progress() as u8]);
+        }
+        if k % 7 == 0 {
+            p.reset();
+        }
+        let _ = writeln!(lock, "D {} {:016x}", k, h);
+        total += 1;
+        k += 1;
+    }
+    // (b) a 2^24-1 byte handshake message streamed in 16384-byte records across the 10 MiB cap
+    let mut p = TlsRecordsParser::default();
+    let mut first = vec![20u8, 0xff, 0xff, 0xff];
+    first.extend(std::iter::repeat(0x5a).take(16380));
+    let chunk = vec![0xa5u8; 16384];
+    let mut h: u64 = 0xcbf2_9ce4_8422_2325;
+    for step in 0..1100u32 {
+        let d: &[u8] = if step == 0 { &first } else { &chunk };
+        let rec = TlsRawRecord { hdr: TlsRecordHeader { record_type: TlsRecordType(0x16), version: TlsVersion(0x0303), len: d.len() as u16 }, data: d };
+        let r = p.parse_record(rec);
+        let class: u8 = match &r {
+            Ok(_) => 0,
+            Err(Err::Incomplete(_)) => 1,
+            Err(Err::Error(e)) | Err(Err::Failure(e)) => 2 + (e.code as u32 % 200) as u8,
+        };
+        drop(r);
+        fnv(&mut h, &[class, p.defrag_in_progress() as u8]);
+        if step % 20 == 19 {
+            let _ = writeln!(lock, "S {} {:016x}", step, h);
+            total += 1;
+        }
+    }
     let _ = writeln!(lock, "# items={} digests={}", item, total);
 }
